@@ -125,7 +125,7 @@ Definition step (o : dop) (nondet : bool) (p : pool) : res (option (pool * N * b
                                  | Some ro => Nat.leb 2 (length (ro_transactors ro))
                                  | None => false end
                   | None => false end in
-      do p1 <- pool_reset prioE prioB nearE nearB false blocks b final p ;
+      do p1 <- pool_reset prioE prioB nearE nearB false false blocks b final p ;
       do p2 <- (if many then rebuild p1 else Ok p1) ;
       Ok (Some (p2, 0, nondet || many))
   | DRestart tip | DCrash tip =>
@@ -135,7 +135,7 @@ Definition step (o : dop) (nondet : bool) (p : pool) : res (option (pool * N * b
       match get_block blocks (p_head p) with
       | None => Err 1
       | Some head =>
-          do p1 <- pool_init_load prioE prioB (img (p_store p)) (img (l_store (p_limbo p))) head ;
+          do p1 <- pool_init_load prioE prioB false (img (p_store p)) (img (l_store (p_limbo p))) head ;
           let n := below_tip tip p1 in
           do p2 <- set_gas_tip prioE prioB tip p1 ;
           if Nat.leb 2 n && (c_datacap c <? p_stored p2) then Ok None else
@@ -177,7 +177,7 @@ Definition C42_run (cs : sx) : sx :=
                   let c := mkCfg datacap bump in
                   let prioE := prio_of pe in let prioB := prio_of pb in
                   let gtE := gt_of ce in let gtB := gt_of cb in
-                  match pool_init prioE prioB gtE gtB c
+                  match pool_init prioE prioB gtE gtB c false
                                   (crash_image empty_billy) (crash_image empty_billy) genesis tip0 with
                   | Ok p0 =>
                       SL (SL [sn 0; dump false p0] ::
